@@ -6,6 +6,9 @@ package main
 var expectedTimeouts = map[string][]string{
 	"handshake_ntn_client": {"Propose", "Confirm"}, "handshake_ntn_server": {"Propose", "Confirm"},
 	"handshake_ntc_client": {}, "handshake_ntc_server": {},
+	// Mode omitted: the table the base state map selection implies (handshake falls back to NtN, chain-sync to NtC)
+	"handshake_mode0_client": {"Propose", "Confirm"}, "handshake_mode0_server": {"Propose", "Confirm"},
+	"chainsync_mode0_client": {}, "chainsync_mode0_server": {},
 	"chainsync_ntn_client": {"Idle", "CanAwait", "MustReply", "Intersect"}, "chainsync_ntn_server": {"Idle", "CanAwait", "MustReply", "Intersect"},
 	"chainsync_ntc_client": {}, "chainsync_ntc_server": {},
 	"blockfetch_client": {"Busy", "Streaming"}, "blockfetch_server": {"Busy", "Streaming"},
